@@ -3,7 +3,8 @@ from decimal import Decimal
 
 from .rng import weighted
 
-SMALL_STRS = ['', 'a', 'b', 'ab', 'x y', '1', '1.0', '-1', 'True', 'None', 'k', 'key', 'ключ', 'a"b', "it's", '0', '2']
+SMALL_STRS = ['', 'a', 'b', 'ab', 'x y', '1', '1.0', '-1', 'True', 'None', 'k', 'key', 'ключ', 'a"b', "it's", '0', '2',
+              'e\u0301', '\ufb03x', '\u2126', '\u212b\u00a0', '\uff21']      # not NFC / NFKC normal forms
 NUM_TEXTS = ['0', '1', '2', '3', '5', '7', '10', '1.0', '1.5', '0.5', '2.50', '0.1', '0.2', '100', '3.14', '42', '9999']
 
 
